@@ -151,6 +151,7 @@ PROPS = {
             {"pkg": "interpreter", "name": "VH_C07_Step", "quick": {"params": {"D": 2, "K": 1, "BIGTOP": 5, "OPLO": 174, "OPHI": 175, "U": 4, "CAP": 65536, "SIGOPS": 1, "TX": 1, "X": 2}}, "thorough": {"params": {"X": 3, "D": 3, "K": 1, "BIGTOP": 9, "OPLO": 174, "OPHI": 175, "U": 4, "CAP": 65536, "SIGOPS": 1, "TX": 1}}},
             {"pkg": "interpreter", "name": "VH_C07_Step", "quick": {"params": {"D": 1, "K": 1, "UNLOCK": 1, "U": 4}}, "thorough": {"params": {"D": 2, "K": 1, "UNLOCK": 1, "U": 4}}},
             {"pkg": "interpreter", "name": "VH_C07_Execute"},
+            {"pkg": "interpreter", "name": "VH_C07_ExecuteSig"},
             {"pkg": "interpreter", "name": "VH_C07_ExecuteScripts", "quick": {"params": {"L": 1, "LU": 0}}, "thorough": {"params": {"L": 2, "LU": 0}}},
             # the signature opcodes with arbitrary signature / key bytes: only the faults count here (the verdict is C06's subject)
             {"pkg": "interpreter", "name": "VH_C06_Encoding", "faults_only": True, "quick": {"params": {"S": 0, "ERA": 0, "TRAIL": 0, "SLN": 2}}, "thorough": {"params": {"S": 0, "ERA": 0, "TRAIL": 0, "SLN": 6}}},
